@@ -147,6 +147,8 @@ def parseK (s : String) : Option Nat :=
     | some k => if 1 ≤ k && k ≤ 1000 then some k else none
     | none => none
 
+/-- `top k`: the limit is applied by the index search and by the sort above index ∪ flat; the flat-only plan (no index)
+    has no fetch; `BooleanQueryExec` truncates by itself -/
 def runQuery (ds : Ds) (k : Option Nat) (toks : List String) : String :=
   match parseFullQuery toks with
   | none => bad
@@ -155,7 +157,9 @@ def runQuery (ds : Ds) (k : Option Nat) (toks : List String) : String :=
     let res := dedupSorted (sortNat (evalQ stdOps ds q))
     match k with
     | none => "ok " ++ showNatList res
-    | some k => s!"ok n={min k res.length}"
+    | some k =>
+      let limited := ds.idx.isSome || (match q with | .bool _ _ _ => true | _ => false)
+      if limited then s!"ok n={min k res.length}" else s!"ok n={res.length}"
 
 def step (s : St) (line : String) : St × String :=
   match splitTokens line, s.ds with
